@@ -2,6 +2,7 @@ package simrt_test
 
 import (
 	"fmt"
+	"sync"
 	"testing"
 
 	"verif/sim/simrt"
@@ -161,5 +162,112 @@ func TestGateStarvation(t *testing.T) {
 	}
 	if len(s.Viol) != 1 || s.Viol[0].Class != "blocked-callback-blocks-others" {
 		t.Fatalf("viol: %v", s.Viol)
+	}
+}
+
+// TestFidelityAgainstRealSync drives the real sync.RWMutex/Mutex and the
+// simulated ones with the same random single-goroutine sequences of
+// non-blocking operations and compares every TryLock/TryRLock outcome.
+func TestFidelityAgainstRealSync(t *testing.T) {
+	for seed := uint64(1); seed <= 300; seed++ {
+		rng := tape.NewSplitMix64(seed)
+		var ops []int
+		for i := 0; i < 40; i++ {
+			ops = append(ops, int(rng.Next()%4))
+		}
+		// real
+		var real sync.RWMutex
+		var realOut []bool
+		w, r := false, 0
+		for _, op := range ops {
+			switch op {
+			case 0:
+				ok := real.TryLock()
+				realOut = append(realOut, ok)
+				if ok {
+					w = true
+				}
+			case 1:
+				ok := real.TryRLock()
+				realOut = append(realOut, ok)
+				if ok {
+					r++
+				}
+			case 2:
+				if w {
+					real.Unlock()
+					w = false
+				}
+			case 3:
+				if r > 0 {
+					real.RUnlock()
+					r--
+				}
+			}
+		}
+		// simulated
+		var simOut []bool
+		s := simrt.New(tape.New(seed), simrt.Strategy{})
+		var sm simsync.RWMutex
+		s.Go("t", func() {
+			w, r := false, 0
+			for _, op := range ops {
+				switch op {
+				case 0:
+					ok := sm.TryLock()
+					simOut = append(simOut, ok)
+					if ok {
+						w = true
+					}
+				case 1:
+					ok := sm.TryRLock()
+					simOut = append(simOut, ok)
+					if ok {
+						r++
+					}
+				case 2:
+					if w {
+						sm.Unlock()
+						w = false
+					}
+				case 3:
+					if r > 0 {
+						sm.RUnlock()
+						r--
+					}
+				}
+			}
+		})
+		if !s.Run() || len(s.Viol) != 0 {
+			t.Fatalf("seed %d: %v", seed, s.Viol)
+		}
+		if fmt.Sprint(realOut) != fmt.Sprint(simOut) {
+			t.Fatalf("seed %d: real %v sim %v", seed, realOut, simOut)
+		}
+	}
+}
+
+// TestWriterPreference: a waiting writer blocks new readers (as sync.RWMutex
+// documents), a second reader arriving before the writer does not block.
+func TestWriterPreference(t *testing.T) {
+	blocked, free := 0, 0
+	for seed := uint64(0); seed < 400; seed++ {
+		s := simrt.New(tape.New(seed), simrt.Strategy{})
+		var mu simsync.RWMutex
+		order := ""
+		s.Go("r1", func() { mu.RLock(); s.Point("hold"); s.Point("hold"); mu.RUnlock() })
+		s.Go("w", func() { mu.Lock(); order += "w"; mu.Unlock() })
+		s.Go("r2", func() { mu.RLock(); order += "r"; mu.RUnlock() })
+		if !s.Run() {
+			t.Fatalf("seed %d: %v", seed, s.Viol)
+		}
+		if order == "wr" {
+			blocked++
+		} else {
+			free++
+		}
+	}
+	if blocked == 0 || free == 0 {
+		t.Fatalf("writer preference not exercised both ways: blocked=%d free=%d", blocked, free)
 	}
 }
